@@ -274,6 +274,11 @@ impl Prop for C08 {
             }
         }
         let _ = kinds;
+        if out.violation.as_ref().map(|v| v.class == "nonfinite").unwrap_or(false) && fed_immoderate_magnitude(spec, &delivered_values(sc, 0), Symptom::NonFinite) {
+            // the chain itself produced a value beyond 1e100 and fed it to the node that then overflowed
+            out.violation = None;
+            out.stats.hit("skip.immoderate_intermediate_magnitude");
+        }
         if let Some(v) = out.violation.as_mut() {
             if v.class == "nonfinite" {
                 v.key = culprit(spec, &delivered_values(sc, 0), Symptom::NonFinite);
@@ -303,6 +308,7 @@ impl Prop for C08 {
     fn assumptions(&self) -> Vec<String> {
         vec![
             "inputs finite, magnitude 0 or within [1e-3,1e7]; positive feed and positivity-preserving subtrees where Drawdown/LnReturn/divisors occur".into(),
+            "moderate magnitude holds for every node of a chain: a non-finite value is not a finding when the node that produced it had been fed a value beyond 1e100 by its own child (e.g. the standard deviation of a rate of change over a base of 1e-200); counted under skipped.immoderate_intermediate_magnitude. Tiny non-zero values are ordinary inputs".into(),
             "a panic ends the run and is counted under skipped.panic: crashes belong to C15".into(),
             "'reports from the k-th value' is read as: nothing before the k-th delivered value, a value from the k-th on".into(),
             "built without debug assertions (the shipped configuration), so a non-finite value is observed instead of being pre-empted by the library's debug_assert".into(),
